@@ -273,6 +273,25 @@ CLAIMS = {
   technique="Lean 4 theorem proving (stage-wise characterisation) + regenerated tables + template-grid differential with "
             "independent arithmetic oracle + distinctness runs",
   design="§6 C11"),
+ "C09": dict(
+  text="PARTIAL, as the property is about the C runtime. Proved (Lean 4): every decode of a JSON value into any of the "
+       "library's fixed buffers (KEYMAX key/salt/apu/apv/coordinate buffers, KEYMAX+16 wrapped-key buffer, exact-size key, "
+       "IV, tag and digest buffers) writes at most the buffer's capacity and reads nothing beyond the text, for every "
+       "JSON type, length and character content, and refuses without writing when the text would decode to more; the size "
+       "query the guards rely on is exact; the reference-count scripts of jose_jws_hdr / jose_jwe_hdr (mirroring the C "
+       "statement by statement) are balanced on every path for every JSON type of `protected`, every decode outcome and "
+       "every merge outcome: caller counts unchanged, nothing created survives; IO stages release their `next`. "
+       "Validated, not proved: every harness operation (all public entry points incl. OpenSSL conversions) on valid objects "
+       "of every algorithm and on 1..4 random structural edits of any argument, under ASan+UBSan with per-call argument "
+       "deep-compare, reference-count sums and steady-state heap balance; verdicts compared with the model.",
+  note="Trusted: Lean kernel, standard axioms; gcc ASan/UBSan; the harness instrumentation. Memory safety of compiled C "
+       "beyond the modelled guards is validation, not proof, and is labelled so. Implementation-only (no model verdict): "
+       "nested key lists, RSA keys with inconsistent members, OpenSSL conversion functions. Found and fixed through this "
+       "check or its instrumentation: F5 (borrowed reference released), F20 (decoded protected header leaked on every "
+       "decryption), F21 (RSA d leaked on failed import), F8 (NULL dereference), F2 (heap over-read).",
+  technique="Lean 4 theorem proving (buffer bounds for all inputs; ownership scripts over all JSON types) + sanitizer-"
+            "instrumented mutation differential (validation)",
+  design="§6 C09"),
 }
 
 NOT_YET = "check not built yet (framework under construction); will be claimed when its Lean theorems and correspondence exist"
